@@ -185,7 +185,12 @@ impl AsCborValue for CoseKey {
         if !self.base_iv.is_empty() {
             map.push((BASE_IV.to_cbor_value()?, Value::Bytes(self.base_iv)));
         }
-        let mut seen = BTreeSet::new();
+        // Start from the labels already emitted above, so that an entry in `params` cannot repeat
+        // the label of a populated field.
+        let mut seen = map
+            .iter()
+            .map(|(l, _v)| Label::from_cbor_value(l.clone()))
+            .collect::<Result<BTreeSet<_>, _>>()?;
         for (label, value) in self.params {
             if seen.contains(&label) {
                 return Err(CoseError::DuplicateMapKey);
